@@ -822,6 +822,14 @@ fn scan<'tcx>(tcx: TyCtxt<'tcx>, crate_name: &str) -> J {
             }
             v.push(("bounds", J::Arr(bounds)));
         }
+        // names of the generic parameters (parents first), aligned with the `generics` list of a call to this function
+        {
+            let ids = ty::GenericArgs::identity_for_item(tcx, did);
+            v.push((
+                "generic_params",
+                J::Arr(ids.iter().map(|a| J::s(ty::print::with_no_trimmed_paths!(a.to_string()))).collect()),
+            ));
+        }
         v.push(("body", cx.body_json(ldid, body)));
         fns.push(J::obj(v));
     }
